@@ -879,13 +879,18 @@ func isNilConst(v ssa.Value) bool {
 // ifaceEqPanics: comparing two interface values panics when their dynamic types are
 // identical and not comparable.
 func (fc *FuncCtx) ifaceEqPanics(a, b *Term) *Term {
+	return And(Eq(fc.anyTypeID(a), fc.anyTypeID(b)), Not(fc.comparableAny(a)))
+}
+
+// comparableAny: the dynamic type of a is comparable with == (nil, booleans, strings,
+// numbers, pointers always; functions and maps never; other kinds per known_comparable).
+func (fc *FuncCtx) comparableAny(a *Term) *Term {
 	is := func(c string, x *Term) *Term { return &Term{"((_ is " + c + ") " + x.S + ")", SBool} }
 	fc.d.Fun("known_comparable", []Sort{SInt}, SBool)
 	fc.d.Fun("is_map_type", []Sort{SInt}, SBool)
-	unc := Or(is("a_fn", a),
-		And(is("a_oth", a), Not(App(SBool, "known_comparable", App(SInt, "a_oth_ty", a)))),
-		And(is("a_ref", a), App(SBool, "is_map_type", App(SInt, "a_ref_ty", a))))
-	return And(Eq(fc.anyTypeID(a), fc.anyTypeID(b)), unc)
+	return Or(is("a_nil", a), is("a_bool", a), is("a_str", a), is("a_int", a), is("a_f64", a),
+		And(is("a_ref", a), Not(App(SBool, "is_map_type", App(SInt, "a_ref_ty", a)))),
+		And(is("a_oth", a), App(SBool, "known_comparable", App(SInt, "a_oth_ty", a))))
 }
 
 func (ex *Exec) convertSort(t *Term, from, to Sort) *Term {
